@@ -39,6 +39,8 @@ Fresh(meta, id, expect) ==
    selecting |-> {}, spawning |-> {},
    spawnAt |-> {},
    pendingA |-> {}, envGot |-> [p \in Pids |-> {}],
+   own |-> <<>>,                           \* C14: resource -> owner, as the property defines it
+   opened |-> {}, explicit |-> {}, autoClosed |-> <<>>,
    heap |-> [w \in 0..7 |-> None],          \* last heap snapshot per worker
    died |-> [p \in Pids |-> None],         \* select state a process had open when it got its result
    now |-> 0,
@@ -50,7 +52,7 @@ Chk(o, cond, prop, rule, detail) == IF cond THEN o ELSE V(o, prop, rule, detail)
 
 \* `let` operations are local and unobservable: the observer's position skips them
 RECURSIVE SkipLets(_, _)
-SkipLets(ops, i) == IF i <= Len(ops) /\ ops[i].op = "let" THEN SkipLets(ops, i + 1) ELSE i
+SkipLets(ops, i) == IF i <= Len(ops) /\ ops[i].op \in {"let", "mint"} THEN SkipLets(ops, i + 1) ELSE i
 PcAt(o, p) == IF o.script[p] = 0 THEN o.pc[p] ELSE SkipLets(Scripts[o.script[p]], o.pc[p])
 OpAt(o, p) ==
   IF o.script[p] = 0 \/ PcAt(o, p) > Len(Scripts[o.script[p]]) THEN [op |-> "none"]
@@ -70,6 +72,7 @@ Consume(o, w, c) ==
     [] c.t = "UpdateAwaitResults" -> [o EXCEPT !.known[c.a] = LearnResults(@, c.rs)]
     [] c.t = "NotifySpawn" -> [o EXCEPT !.pc[c.p] = PcAt(o, c.p) + 1]
     [] c.t = "SpawnProcess" -> [o EXCEPT !.host[c.id] = w]
+    [] c.t = "EffectCompletion" -> IF c.ok THEN [o EXCEPT !.pc[c.p] = PcAt(o, c.p) + 1] ELSE o
     [] OTHER -> o
 
 (* ---------------- executor operations (hook events) ---------------- *)
@@ -171,6 +174,10 @@ Emitted(o, p, e) ==
                   o1 == Chk(o, op.op = "send", "C03", "ScriptFollowed",
                             <<"send executed where the script has", op.op, p>>)
               IN [o1 EXCEPT !.sent[p][e.to] = Append(@, e.m), !.pc[p] = PcAt(o, p) + 1]
+    [] e.t = "EffectRequest" ->
+         IF o.meta.entry = 0 THEN o
+         ELSE Chk(o, OpAt(o, e.p).op \in {"open", "use", "close"}, "C03", "ScriptFollowed",
+                  <<"effect requested where the script has", OpAt(o, e.p).op, e.p>>)
     [] OTHER -> o
 
 RECURSIVE FoldEmitted(_, _, _)
@@ -244,8 +251,50 @@ WorkerRecord(o, r) ==
 SomeKeys(rs) == {rs[i][1] : i \in {i \in 1..Len(rs) : rs[i][2] # None}}
 CmdsOf(r, t) == SelectSeq(r.cmds, LAMBDA c : c.c.t = t)
 
-EnvRecord(o, r) ==
-  LET o0 == IF Has(r, "crash") THEN V(o, "C15", "NoWorkerCrash", r.crash) ELSE o IN
+(* ---------------- C14: ownership, judged on the backend's call log ---------------- *)
+RECURSIVE OwnTransfer(_, _, _)
+OwnTransfer(ow, rs, to) == IF rs = {} THEN ow
+                           ELSE LET x == CHOOSE x \in rs : TRUE IN OwnTransfer(APut(ow, x, to), rs \ {x}, to)
+ResInAll(vs) == UNION {ResIn(vs[i]) : i \in 1..Len(vs)}
+Count(seq, x) == Cardinality({i \in 1..Len(seq) : seq[i] = x})
+
+\* a resource that has been closed (explicitly or at its owner's exit) has no owner any more
+Gone(o, x) == x \in o.explicit \/ Count(o.autoClosed, x) > 0
+
+BackendCall(o, b) ==
+  IF b.call = "execute"
+  THEN LET o1 == IF b.res = <<>> THEN o
+                 ELSE Chk(o, ~AHas(o.own, b.res[1]) \/ AGet(o.own, b.res[1]) = b.p \/ Gone(o, b.res[1]),
+                          "C14", "UseOnlyByOwner", <<"process", b.p, "operated on resource", b.res[1], "owned by", o.own>>)
+       IN IF b.op = "open" /\ b.ok /\ b.created # <<>>
+          THEN [o1 EXCEPT !.own = APut(@, b.created[1], b.p), !.opened = @ \cup {b.created[1]}]
+          ELSE IF b.op = "close" /\ b.ok /\ b.res # <<>> THEN [o1 EXCEPT !.explicit = @ \cup {b.res[1]}]
+          ELSE o1
+  ELSE LET o1 == Chk(o, ~AHas(o.own, b.res) \/ b.res \in o.explicit \/ o.res[AGet(o.own, b.res)] # None,
+                     "C14", "NoCloseWhileOwnerAlive", <<"resource", b.res, "closed while owner is running", o.own>>)
+       IN IF b.was_open THEN [o1 EXCEPT !.autoClosed = Append(@, b.res)] ELSE o1
+
+RECURSIVE FoldBackend(_, _)
+FoldBackend(o, bs) == IF bs = <<>> THEN o ELSE FoldBackend(BackendCall(o, Head(bs)), Tail(bs))
+
+Ownership(o, r) ==
+  LET e == IF r.consumed = <<>> THEN [t |-> "none"] ELSE r.consumed[1].e
+      sp == SelectSeq(r.cmds, LAMBDA c : c.c.t = "SpawnProcess")
+      o1 == CASE e.t = "SpawnAction" /\ sp # <<>> ->
+                   [o EXCEPT !.own = OwnTransfer(@, ResIn(e.arg) \cup ResInAll(e.caps), sp[1].c.id)]
+              [] e.t = "DeliverAction" -> [o EXCEPT !.own = OwnTransfer(@, ResIn(e.m), e.to)]
+              [] e.t = "EffectRequest" /\ e.res # <<>> /\ AHas(o.own, e.res[1]) /\ AGet(o.own, e.res[1]) # e.p
+                   /\ ~Gone(o, e.res[1]) ->
+                   Chk(o, r.backend = <<>> /\ \E i \in 1..Len(r.cmds) :
+                             r.cmds[i].c.t = "EffectCompletion" /\ r.cmds[i].c.p = e.p /\ ~r.cmds[i].c.ok,
+                       "C14", "NeverReachesBackend",
+                       <<"process", e.p, "is not the owner of", e.res[1], "backend", r.backend, "answer", r.cmds>>)
+              [] OTHER -> o
+  IN FoldBackend(o1, r.backend)
+
+EnvRecord(oo, r) ==
+  LET o == Ownership(oo, r)
+      o0 == IF Has(r, "crash") THEN V(o, "C15", "NoWorkerCrash", r.crash) ELSE o IN
   IF r.consumed = <<>> THEN o0
   ELSE
   LET e == r.consumed[1].e
@@ -297,6 +346,7 @@ NoDup(s) == \A i, j \in 1..Len(s) : s[i] = s[j] => i = j
 OwnFailure(o, p) ==
   LET op == OpAt(o, p) IN
   \/ op.op = "fail" /\ o.res[p][1].e = op.e
+  \/ op.op \in {"open", "use", "close"}          \* an effect of its own failed (I/O error, ownership violation)
   \/ o.died[p] # None /\ o.died[p] # <<>> /\ o.died[p][1].receiving # <<>>     \* died inside a filter body
 
 DiedAwaiting(o, p) ==
@@ -310,6 +360,11 @@ Canon(o, v) == CASE v.k = "pid" -> [k |-> "pid", path |-> IF v.p \in Pids THEN o
                  [] OTHER -> v
 CanonR(o, r) == IF r = None THEN None ELSE IF r[1].ok THEN Some(OkR(Canon(o, r[1].v))) ELSE r
 CanonResults(o) == {<<o.path[p], CanonR(o, o.res[p])>> : p \in Known(o)}
+
+RECURSIVE RefsOf(_)
+RefsOf(v) == CASE v.k = "ref" -> <<v>>
+               [] v.k = "tup" -> FlattenSeq([i \in 1..Len(v.fs) |-> RefsOf(v.fs[i])])
+               [] OTHER -> <<>>
 
 \* always-properties, judged at the end of every run whether or not it is quiescent
 Always(o) ==
@@ -327,7 +382,10 @@ Always(o) ==
                        \/ \E t \in DiedAwaiting(o, p) : t \in Pids /\ o.res[t] = o.res[p],
                 "C15", "FailureContained",
                 {<<p, o.res[p]>> : p \in {p \in ps : FailedP(o, p) /\ ~OwnFailure(o, p)}})
-  IN o4
+      leaves == SetToSeq({p \in ps \ {0} : o.res[p] # None /\ o.res[p][1].ok})
+      minted == FlattenSeq([i \in 1..Len(leaves) |-> RefsOf(o.res[leaves[i]][1].v)])
+      o4b == Chk(o4, NoDup(minted), "C13", "RefsUnique", minted)
+  IN o4b
 
 AtQuiescence(o, r) ==
   LET ps == Known(o)
@@ -349,11 +407,16 @@ AtQuiescence(o, r) ==
       o5 == IF o.meta.terminates
             THEN Chk(o4, blocked = {} /\ r.outcome.t # "none", "C03", "NoHang", <<blocked, r.outcome>>)
             ELSE o4
+      leaked == {x \in o.opened : x \notin o.explicit /\ AHas(o.own, x) /\ AGet(o.own, x) \in Pids /\
+                                   DoneP(o, AGet(o.own, x)) /\ Count(o.autoClosed, x) # 1}
+      o5b == Chk(o5, leaked = {}, "C14", "ClosedExactlyOnceAtExit",
+                 <<"resources whose owner has terminated but that were not closed exactly once", leaked, o.own, o.autoClosed>>)
+      o5c == Chk(o5b, \A x \in o.opened : Count(o.autoClosed, x) <= 1, "C14", "ClosedExactlyOnceAtExit", o.autoClosed)
       canon == CanonResults(o)
-      o6 == IF ~o.meta.confluent THEN o5
+      o6 == IF ~o.meta.confluent THEN o5c
             ELSE IF o.expect # None /\ o.expect[1][1] = o.meta.scenario
-                 THEN Chk(o5, canon = o.expect[1][2], "C03", "Confluent", <<canon, o.expect[1][2]>>)
-                 ELSE [o5 EXCEPT !.expect = Some(<<o.meta.scenario, canon>>)]
+                 THEN Chk(o5c, canon = o.expect[1][2], "C03", "Confluent", <<canon, o.expect[1][2]>>)
+                 ELSE [o5c EXCEPT !.expect = Some(<<o.meta.scenario, canon>>)]
   IN o6
 
 EndRecord(o, r) ==
